@@ -74,6 +74,7 @@ type FuncContract struct {
 	Opts     map[string]bool
 	Serves   []string
 	ExitSets []*GhostSet
+	EntrySets []*GhostSet
 	Where    string
 	File     *SpecFile
 }
@@ -92,6 +93,7 @@ type GhostDecl struct {
 	Params []QVar
 	Result *TypeExpr
 	File   *SpecFile
+	Local  bool // function-private ghost (e.g. a counter): never havocked by calls without a contract
 }
 
 type FactDecl struct {
@@ -120,7 +122,7 @@ var clauseKeywords = map[string]bool{
 	"package": true, "import": true, "pure": true, "ghost": true, "axiom": true, "lemma": true,
 	"func": true, "iface": true, "extern": true, "callback": true, "funcfield": true,
 	"requires": true, "ensures": true, "modifies": true, "loop": true, "call": true, "let": true,
-	"trusted": true, "inline": true, "opt": true, "serves": true, "exit": true,
+	"trusted": true, "inline": true, "opt": true, "serves": true, "exit": true, "entry": true,
 }
 
 var labelRe = regexp.MustCompile(`^\[([^\]]*)\]\s*`)
@@ -227,6 +229,11 @@ func (sp *Specs) loadFile(path, pkgPath string) error {
 				return fail(fmt.Errorf("bad import"))
 			}
 		case "pure", "ghost":
+			local := false
+			if kw == "ghost" && strings.HasPrefix(rest, "local ") {
+				local = true
+				rest = strings.TrimSpace(rest[6:])
+			}
 			name, params, result, def, err := parseDeclHead(rest)
 			if err != nil {
 				return fail(err)
@@ -240,7 +247,7 @@ func (sp *Specs) loadFile(path, pkgPath string) error {
 				if _, dup := sp.Ghosts[name]; dup {
 					return fail(fmt.Errorf("duplicate ghost %s", name))
 				}
-				sp.Ghosts[name] = &GhostDecl{Name: name, Params: params, Result: result, File: sf}
+				sp.Ghosts[name] = &GhostDecl{Name: name, Params: params, Result: result, File: sf, Local: local}
 			}
 		case "axiom", "lemma":
 			c, err := mkClause(rest)
@@ -362,6 +369,16 @@ func (sp *Specs) loadFile(path, pkgPath string) error {
 				default:
 					return fail(fmt.Errorf("loop: unknown %q", parts[1]))
 				}
+			case "entry":
+				// entry set g(args) = e   (ghost initialisation at function entry)
+				if !strings.HasPrefix(rest, "set ") {
+					return fail(fmt.Errorf("entry set g(args) = e"))
+				}
+				gs, err := parseGhostSet(strings.TrimSpace(rest[4:]))
+				if err != nil {
+					return fail(err)
+				}
+				cur.EntrySets = append(cur.EntrySets, gs)
 			case "exit":
 				// exit set g(args) = e   (ghost code executed at every return, before the postconditions)
 				if !strings.HasPrefix(rest, "set ") {
